@@ -63,6 +63,17 @@ def _raises(cfg: CFG, branch: int, exc_names: Tuple[str, ...]) -> bool:
     return ok
 
 
+def _is_presence_test(node: ast.AST) -> bool:
+    """the value is only tested for truth (``if x:``, ``if not x:``, ``x and ...`` in a test)"""
+    cur = node
+    par = getattr(cur, "_parent", None)
+    while isinstance(par, (ast.UnaryOp, ast.BoolOp)):
+        if isinstance(par, ast.UnaryOp) and not isinstance(par.op, ast.Not):
+            return False
+        cur, par = par, getattr(par, "_parent", None)
+    return isinstance(par, (ast.If, ast.IfExp, ast.While)) and par.test is cur
+
+
 def reference_sites(chk: Check, rule: str) -> int:
     """R09.1: every read of a reference field goes UUID(bytes=..) -> get_by_uuid ->
     isinstance check failing into DeserializationError -> use."""
@@ -77,13 +88,25 @@ def reference_sites(chk: Check, rule: str) -> int:
             continue
         reads = [r for r in pf.read(m, fname) if r.how == "load"]
         want = KIND[(m, fname)]
+        # a read bound to a local that is assigned once is read where that local is used
+        expanded = []
         for r in reads:
+            par0 = getattr(r.node, "_parent", None)
+            if isinstance(par0, ast.Assign) and len(par0.targets) == 1 and isinstance(par0.targets[0], ast.Name) \
+                    and par0.value is r.node and par0.targets[0].id in local_aliases(r.f.node):
+                nm0 = par0.targets[0].id
+                uses0 = [x for x in walk_no_nested(r.f.node) if isinstance(x, ast.Name) and x.id == nm0
+                         and isinstance(x.ctx, ast.Load)]
+                if uses0:
+                    from ..protoflow import Access
+                    expanded.extend(Access(r.msg, r.field, r.f, x, r.how) for x in uses0)
+                    continue
+            expanded.append(r)
+        for r in expanded:
             f = r.f
             par = getattr(r.node, "_parent", None)
             # presence tests (``if proto_module.entry_point:``) are not resolutions
-            if isinstance(par, (ast.If, ast.IfExp, ast.BoolOp, ast.UnaryOp)) and getattr(par, "test", None) is r.node:
-                continue
-            if isinstance(par, (ast.If, ast.IfExp)) and par.test is r.node:
+            if _is_presence_test(r.node):
                 continue
             key = "%s.%s@%s" % (m, fname, f.qualname)
             n_sites += 1
@@ -181,6 +204,92 @@ def reference_sites(chk: Check, rule: str) -> int:
     return n_sites
 
 
+def _from_protobuf_by_summary(chk: Check, rule: str, f: FuncInfo) -> bool:
+    """case split over the atoms of Node._from_protobuf (E11): on every path — however the
+    guards are spelt — the cached node is returned exactly when it is an instance of cls, a
+    cached node of another class raises DeserializationError, and the message is decoded only
+    when nothing is cached (or there is no IR).  False: outside the fragment, the CFG rules run."""
+    from ..summaries import Outside, Summary
+    try:
+        sm = Summary(f.node)
+    except Outside:
+        return False
+    looks = [n for n in walk_no_nested(f.node) if isinstance(n, ast.Call)
+             and isinstance(n.func, ast.Attribute) and n.func.attr == "get_by_uuid"]
+    chk.ob(rule, "Node._from_protobuf:looks-up", len(looks) == 1, f.loc(),
+           "Node._from_protobuf must look the UUID up in the loading IR first", 1)
+    if len(looks) != 1:
+        return True
+    lk = unparse(looks[0])
+    # the lookup argument may itself have been substituted; compare by the callee text
+    lk_head = unparse(looks[0].func) + "("
+
+    def is_lookup(txt: str) -> bool:
+        return txt.startswith(lk_head)
+
+    def has_decode(e: Optional[ast.AST]) -> bool:
+        return e is not None and any(isinstance(x, ast.Call) and attr_path(x.func) == ("cls", "_decode_protobuf")
+                                     for x in ast.walk(e))
+    kind_checked = wrong_rejected = decode_on_miss = True
+    saw_inst = False
+    why = ""
+    for p in sm.paths:
+        inst = none = noir = None
+        for k, v in p.facts.items():
+            if k[0] == "truthy" and k[1].startswith("isinstance(") and is_lookup(k[1][len("isinstance("):]) \
+                    and k[1].rstrip(")").endswith(", cls"):
+                inst = v
+                saw_inst = True
+            elif k[0] == "Is" and "None" in k[1:] and any(is_lookup(x) for x in k[1:]):
+                none = v
+            elif k[0] == "Is" and set(k[1:]) == {"None", "ir"}:
+                noir = v
+            elif k[0] == "truthy" and is_lookup(k[1]):
+                none = not v          # truthiness of a node: R03.3 keeps nodes truthy
+        decoded = has_decode(p.value) or any(has_decode(st) for st in p.effects) or \
+            any(has_decode(v_) for v_ in p.env.values())
+        returns_cached = p.kind == "return" and p.value is not None and is_lookup(unparse(p.value))
+        miss = bool(noir) or bool(none)
+        if p.kind == "raise":
+            if not ("DeserializationError" in unparse(p.value) if p.value is not None else False):
+                continue
+            if inst or miss:
+                wrong_rejected = False
+                why = "raises although the cached node fits or nothing is cached"
+            continue
+        if inst:
+            if not returns_cached or has_decode(p.value):
+                kind_checked = False
+                why = "with a cached node of the right class it returns %s" % (unparse(p.value)[:40] if p.value is not None else None)
+        elif miss:
+            if not (has_decode(p.value) or (p.value is not None and decoded)):
+                decode_on_miss = False
+                why = "nothing cached, yet the message is not decoded"
+        else:
+            # something of another class is cached (or no test told us otherwise): must not return
+            if inst is False and none is False:
+                wrong_rejected = False
+                why = "a cached node of another class is %s" % ("returned" if returns_cached else "silently re-decoded")
+            elif returns_cached:
+                kind_checked = False
+                why = "the cached node is returned without an isinstance(cached, cls) test"
+            elif decoded and none is None and noir is None:
+                decode_on_miss = False
+                why = "the message is decoded without asking whether a node is cached"
+        if decoded and inst:
+            decode_on_miss = False
+            why = "the message is decoded although a node of the right class is cached"
+    chk.ob(rule, "Node._from_protobuf:kind-check", kind_checked and saw_inst, f.loc(),
+           "a cached node may be reused only if isinstance(cached, cls) (%s)" % why, 2)
+    chk.ob(rule, "Node._from_protobuf:wrong-class-rejected", wrong_rejected, f.loc(),
+           "a cached node of another class under the same UUID must raise DeserializationError, "
+           "not be returned or silently re-decoded (%s)" % why, 3)
+    chk.ob(rule, "Node._from_protobuf:decode-only-on-miss", decode_on_miss, f.loc(),
+           "the message must be decoded only when no node of that UUID is attached, and a cached "
+           "node returned only on the isinstance outcome (%s)" % why, 3)
+    return True
+
+
 def from_protobuf_cache(chk: Check, rule: str) -> None:
     """Node._from_protobuf: reuse iff isinstance(cached, cls); other class raises; miss decodes"""
     node = chk.repo.cls("Node")
@@ -188,6 +297,8 @@ def from_protobuf_cache(chk: Check, rule: str) -> None:
     if f is None:
         raise AnalysisError("anchor vanished: Node._from_protobuf")
     chk.saw(f)
+    if _from_protobuf_by_summary(chk, rule, f):
+        return
     cfg = CFG(f.node)
     al = local_aliases(f.node)
     look = [n for n in walk_no_nested(f.node) if isinstance(n, ast.Call)
